@@ -11,6 +11,7 @@ import (
 	"github.com/ipld/go-ipld-prime/codec/dagcbor"
 	"github.com/ipld/go-ipld-prime/codec/dagjson"
 	"github.com/ipld/go-ipld-prime/datamodel"
+	"github.com/ipld/go-ipld-prime/node/basicnode"
 	"github.com/ipld/go-ipld-prime/schema"
 
 	"verif/mc/core"
@@ -159,6 +160,10 @@ func Check(eng typed.Engine, s *rs.Schema, c Case) (fs []core.Finding, outcome s
 			fs = append(fs, core.F(site+"/"+route+"/reencode-differs", "%s: encoded %x, reference %x", where, buf.Bytes(), wantBytes))
 		}
 		nodes = append(nodes, n)
+	}
+	// across implementations: the views are equal to, and copy into, a generic node holding the same value
+	if len(nodes) > 0 {
+		fs = append(fs, crossImpl(site, where, nodes[0], v, repr)...)
 	}
 	// the routes give the same node (typed maps compared up to entry order: codecs canonicalise it)
 	if hasUnsortedTypedMap(s, t, v) {
@@ -450,4 +455,106 @@ func RunRoutes(r *core.Run, engines []typed.Engine, fams []*rs.Schema, every int
 		}
 		r.Merge(&lc)
 	})
+}
+
+func holdsOnlyGenericValues(v ref.Val) bool {
+	switch v.K {
+	case ref.KAbsent, ref.KUint:
+		return false
+	case ref.KFloat:
+		return v.F == v.F // NaN is outside DeepEqual's domain
+	}
+	for _, c := range v.L {
+		if !holdsOnlyGenericValues(c) {
+			return false
+		}
+	}
+	for _, e := range v.M {
+		if !holdsOnlyGenericValues(e.V) {
+			return false
+		}
+	}
+	return true
+}
+
+// crossImpl: DeepEqual and Copy between a typed node's views and basicnode nodes of the same abstract
+// value agree with equality of the abstract values (C01's clause, on the typed implementations).
+func crossImpl(site, where string, n datamodel.Node, v, repr ref.Val) (fs []core.Finding) {
+	views := []struct {
+		name string
+		node datamodel.Node
+		val  ref.Val
+	}{{"type", n, v}, {"repr", n.(schema.TypedNode).Representation(), repr}}
+	for _, vw := range views {
+		if !holdsOnlyGenericValues(vw.val) {
+			continue
+		}
+		var eq1, eq2, neq bool
+		var copied ref.Val
+		var cerr error
+		pan := core.Guard(func() {
+			b := ref.Basic(vw.val)
+			eq1, eq2 = datamodel.DeepEqual(vw.node, b), datamodel.DeepEqual(b, vw.node)
+			// a generic node that differs in one place (one more list element / map entry, or another scalar)
+			neq = datamodel.DeepEqual(vw.node, ref.Basic(perturb(vw.val))) || datamodel.DeepEqual(ref.Basic(perturb(vw.val)), vw.node)
+			nb := basicnode.Prototype.Any.NewBuilder()
+			cerr = datamodel.Copy(vw.node, nb)
+			if cerr == nil {
+				copied, _ = ref.Read1(nb.Build())
+			}
+		})
+		switch {
+		case pan != "":
+			fs = append(fs, core.F(site+"/cross-impl/panic("+vw.name+"|"+core.Class(pan)+")", "%s: DeepEqual/Copy against a basicnode node of the %s-level value: %s", where, vw.name, pan))
+		case !eq1 || !eq2:
+			fs = append(fs, core.F(site+"/cross-impl/deepequal-false-on-equal-values("+vw.name+")", "%s: DeepEqual(typed %s view, basicnode %s) = %v, reversed = %v", where, vw.name, vw.val, eq1, eq2))
+		case neq:
+			fs = append(fs, core.F(site+"/cross-impl/deepequal-true-on-different-values("+vw.name+")", "%s: DeepEqual(typed %s view, basicnode %s) is true", where, vw.name, perturb(vw.val)))
+		case cerr != nil:
+			fs = append(fs, core.F(site+"/cross-impl/copy-error("+vw.name+")", "%s: Copy of the %s view into a basicnode builder: %v", where, vw.name, cerr))
+		case !ref.Equal(copied, vw.val):
+			fs = append(fs, core.F(site+"/cross-impl/copy-differs("+vw.name+")", "%s: Copy of the %s view reads %s, want %s", where, vw.name, copied, vw.val))
+		}
+	}
+	return
+}
+
+// perturb returns a value differing from v in exactly one place (the last leaf, or one more element).
+func perturb(v ref.Val) ref.Val {
+	switch v.K {
+	case ref.KList:
+		o := ref.List(v.L...)
+		if len(o.L) == 0 {
+			o.L = append(o.L, ref.Null())
+			return o
+		}
+		o.L = append([]ref.Val(nil), v.L...)
+		o.L[len(o.L)-1] = perturb(o.L[len(o.L)-1])
+		return o
+	case ref.KMap:
+		o := ref.Map()
+		o.M = append(o.M, v.M...)
+		if len(o.M) == 0 {
+			o.M = append(o.M, ref.E("zz", ref.Null()))
+			return o
+		}
+		last := o.M[len(o.M)-1]
+		o.M[len(o.M)-1] = ref.Entry{K: last.K, V: perturb(last.V)}
+		return o
+	case ref.KNull:
+		return ref.Bool(false)
+	case ref.KBool:
+		return ref.Bool(!v.B)
+	case ref.KInt:
+		return ref.Int(v.I ^ 1)
+	case ref.KFloat:
+		return ref.Float(v.F + 1)
+	case ref.KString:
+		return ref.Str(v.S + "x")
+	case ref.KBytes:
+		return ref.Bytes(v.S + "x")
+	case ref.KLink:
+		return ref.Null()
+	}
+	return ref.Null()
 }
